@@ -75,9 +75,11 @@ var permWallets = []WalletSpec{
 }
 
 var walletPatterns = []string{"Wallet1", "Wallet2", ".*", "Wallet.*", "Wallet[12]", "Wallet1|Wallet2", "Wallet2|Wallet1", "^Wallet1$", "wallet1", "WALLET2", "Wallet(1|2)", "Wallet1.?", "x?Wallet2", "Wallet10", "[a-z]+3", "Wallet1|xWallet2|wallet3", "Empty", "E.*|Wallet1",
+	// an alternative that is a prefix of a later one, lazy quantifiers: the whole name decides, whichever alternative a matcher prefers
+	"Wallet1|Wallet10", "Wallet1|Wallet10|Wallet2", "Wallet1.??", "Wallet.*?", "Wallet(1|10)", "(?:Wallet1|Wallet10)",
 	// escape classes in both polarities, Unicode classes, POSIX classes, the pattern's own text anchors
 	`Wallet\D`, `Wallet\d`, `Wallet\d+`, `\w+2`, `Wallet\S`, `\D+`, `\W?Wallet1`, `[[:alpha:]]+1`, `Wallet\x31`, `Wallet\pN`, `Wallet\PN`, `\AWallet2\z`, `Wallet1\b`, `Wallet\B1`}
-var accountPatterns = []string{"", "acc1", "acc.*", "acc1|Acc2", "Acc2|acc1", "val-.*", "ACC1", ".*1", "^acc1$", "acc1.?", "(x)?acc1", "acc(1|10)", "made1", "made[0-9]+", "made1|made2|made3", "made.*",
+var accountPatterns = []string{"", "acc1", "acc.*", "acc1|Acc2", "Acc2|acc1", "val-.*", "ACC1", ".*1", "^acc1$", "acc1.?", "(x)?acc1", "acc(1|10)", "acc1|acc10", "acc1|acc10|Acc2", "acc1.??", "acc.+?", "sub|sub/acc1", "made1", "made[0-9]+", "made1|made2|made3", "made.*",
 	`acc\D`, `acc\d`, `acc\d{2}`, `val\W1`, `val\w1`, `\S+`, `\Aacc1\z`, `[[:^digit:]]+\d`, `acc\PL`,
 	"sub/acc1", "sub/.*", ".*/acc1"}
 
